@@ -127,6 +127,9 @@ pub struct ConcResult {
 
 type M = HashMap<K, V, TableHasher>;
 
+/// ticks at every invocation and every response of a scheduled call
+static CALL_CLOCK: std::sync::atomic::AtomicU64 = std::sync::atomic::AtomicU64::new(0);
+
 fn fmt_v(v: Option<&V>) -> String {
     match v {
         Some(v) => format!("some {} {}", v.payload, v.origin),
@@ -342,6 +345,7 @@ fn exec(m: &M, op: &COp, pin: bool, yielded: &mut Vec<(u32, u64, u32)>, closure_
 }
 
 pub fn run_conc(case: &ConcCase, record_all: bool, budget: usize) -> ConcResult {
+    CALL_CLOCK.store(0, std::sync::atomic::Ordering::SeqCst);
     let th = TableHasher { table: Arc::new(case.hashes.clone()) };
     set_default_table(th.table.clone());
     if record_all {
@@ -377,12 +381,18 @@ pub fn run_conc(case: &ConcCase, record_all: bool, budget: usize) -> ConcResult 
             let s3 = s2.clone();
             s2.run_worker(tid, move || {
                 for (idx, op) in prog.iter().enumerate() {
-                    let inv = s3.trace_len();
+                    // invocation and response times: a clock that ticks at every call boundary
+                    // (only one thread runs at a time, so the ticks are in real-time order). The
+                    // trace position alone does not separate "A returned, then B was invoked"
+                    // from "B was invoked, then A returned" when no access lies in between.
+                    let trace_from = s3.trace_len();
+                    let inv = CALL_CLOCK.fetch_add(1, std::sync::atomic::Ordering::SeqCst) as usize;
                     let mut yielded = vec![];
                     let mut cc = 0u32;
                     let result = exec(&map2, op, pin, &mut yielded, &mut cc);
-                    let resp = s3.trace_len();
-                    calls2.lock().unwrap().push(Call { tid, idx, op: op.clone(), inv, resp, result, closure_calls: cc, yielded, trace_from: inv, trace_to: resp });
+                    let resp = CALL_CLOCK.fetch_add(1, std::sync::atomic::Ordering::SeqCst) as usize;
+                    let trace_to = s3.trace_len();
+                    calls2.lock().unwrap().push(Call { tid, idx, op: op.clone(), inv, resp, result, closure_calls: cc, yielded, trace_from, trace_to });
                 }
             });
         }));
@@ -453,7 +463,7 @@ pub fn run_conc(case: &ConcCase, record_all: bool, budget: usize) -> ConcResult 
     let stuck = outcome.deadlock || outcome.budget_exceeded;
     if !stuck && record_all {
         life_failures.extend(notes.into_iter().filter(|n| n.starts_with('[')));
-        let spans: Vec<crate::life::GuardSpan> = calls.iter().map(|c| crate::life::GuardSpan { tid: c.tid, from: c.inv, to: c.resp }).collect();
+        let spans: Vec<crate::life::GuardSpan> = calls.iter().map(|c| crate::life::GuardSpan { tid: c.tid, from: c.trace_from, to: c.trace_to }).collect();
         let drops = VAL_DROPS.lock().unwrap().clone();
         life_failures.extend(crate::life::analyze(&trace, &spans, &drops));
         life_failures.extend(crate::life::lock_discipline(&trace));
